@@ -417,10 +417,56 @@ def rule_r5(prog, res) -> None:
         raise AnalysisError(f"C11.R5: only {n} loadtxt calls found, minimum 2")
 
 
+def rule_r6(prog, res) -> None:
+    """sparse storage keeps every patch pair that has any non-zero bin"""
+    n = 0
+    for ci in prog.classes:
+        w = ci.methods.get("to_hdf")
+        if w is None:
+            continue
+        nz = [c for c in calls_in(w) if (dotted(c.func) or "").endswith("nonzero") and c.args]
+        for c in nz:
+            n += 1
+            res.touch(w)
+            m = c.args[0]
+            if isinstance(m, ast.Name):
+                vals = [v for v in all_def_values(w.node, m.id) if v is not None]
+                m = vals[0] if len(vals) == 1 else m
+            def is_any(e) -> bool:
+                if isinstance(e, ast.Call):
+                    fn = (dotted(e.func) or "").split(".")[-1]
+                    if fn == "any" and (e.args or isinstance(e.func, ast.Attribute)):
+                        inner = e.args[0] if (dotted(e.func) or "").startswith(("np.", "numpy.")) and e.args else (e.func.value if isinstance(e.func, ast.Attribute) else None)
+                        # any over the raw array or over (array != 0)
+                        if inner is None:
+                            return False
+                        if isinstance(inner, ast.Compare):
+                            return len(inner.ops) == 1 and isinstance(inner.ops[0], ast.NotEq) and isinstance(inner.comparators[0], ast.Constant) and inner.comparators[0].value in (0, 0.0)
+                        return not any(isinstance(x, (ast.BinOp, ast.Compare)) for x in ast.walk(inner))
+                return False
+            arith = any(isinstance(x, ast.Call) and (dotted(x.func) or "").split(".")[-1] in ("sum", "nansum", "mean", "prod", "max", "min") for x in ast.walk(m)) or isinstance(m, ast.Compare)
+            if is_any(m):
+                res.ok("C11.R6", res.site(w, "non-zero mask"), f"mask {unparse(m)} marks a patch pair iff any bin is non-zero")
+            elif arith:
+                res.violation(
+                    "C11.R6",
+                    w,
+                    c,
+                    f"the mask of stored patch pairs is {unparse(m)}, an arithmetic reduction compared with a threshold: pairs whose bins cancel, are negative or contain NaN are dropped "
+                    "from the file and read back as zeros",
+                    key_extra="sparse-mask-not-any",
+                )
+            else:
+                raise AnalysisError(f"C11.R6: sparse mask {unparse(m)} in {w.short} not recognised")
+    if n < 1:
+        raise AnalysisError("C11.R6: no sparse (nonzero-mask) HDF5 writer found")
+
+
 RULES = [
     ("C11.R1", rule_r1, QUICK),
     ("C11.R2", rule_r2, QUICK),
     ("C11.R3", rule_r3, QUICK),
     ("C11.R4", rule_r4, QUICK),
     ("C11.R5", rule_r5, QUICK),
+    ("C11.R6", rule_r6, QUICK),
 ]
